@@ -178,7 +178,9 @@ def _power_rows_emit(tr):
     for qual, want in (("RatioOfMeans.solve_power_from_aggregates", _SPFA_WANT), ("RatioOfMeans._validate_power_parameters", _VPP_WANT),
                        ("_to_seq", "if isinstance(x, Sequence):\n    return x\nreturn (x,)")):
         got = body_text(qual)
-        if got != want:
+        from py2coq import alpha_canon
+        keep = ("data", "parameter", "metric_mean", "sample_count", "x", "self")
+        if alpha_canon(got, keep) != alpha_canon(want, keep):
             import difflib
             diff = "\n".join(list(difflib.unified_diff(want.split("\n"), got.split("\n"), lineterm=""))[:12])
             raise Unsupported(f"{qual} is not the text the row-assembly template was written for:\n{diff}")
@@ -245,7 +247,10 @@ def _find_boundary_emit(tr):
     want = ["b = init", "i = 0",
             "while fn(b) > 0:\n    b *= mult\n    i += 1\n    if i == MAX_ITER:\n        raise RuntimeError('Cannot find parameter boundaries. Maximum number of iterations is reached.')",
             "return b"]
-    if src != want or [a.arg for a in f.args.args] != ["fn", "init", "mult"] or _ast.unparse(f.args.defaults[0]) != "10":
+    from py2coq import alpha_canon
+    keep = ("fn", "init", "mult", "MAX_ITER")
+    if (alpha_canon(src, keep) != alpha_canon(want, keep) or [a.arg for a in f.args.args] != ["fn", "init", "mult"]
+            or _ast.unparse(f.args.defaults[0]) != "10"):
         raise Unsupported("_find_boundary changed: " + repr(src))
     mi = [n for n in tr.tree.body if isinstance(n, _ast.Assign) and _ast.unparse(n.targets[0]) == "MAX_ITER"]
     if len(mi) != 1 or not isinstance(mi[0].value, _ast.Constant):
@@ -271,7 +276,8 @@ def _with_zero_div(tr):
             "mean_={k: tea_tasting.utils.numeric(v) for k, v in self.mean_.items()}, "
             "var_={k: tea_tasting.utils.numeric(v) for k, v in self.var_.items()}, "
             "cov_={k: tea_tasting.utils.numeric(v) for k, v in self.cov_.items()})")
-    if len(body) != 1 or _ast.unparse(body[0]) != want:
+    from py2coq import alpha_canon
+    if len(body) != 1 or alpha_canon(_ast.unparse(body[0])) != alpha_canon(want):
         raise Unsupported("Aggregates.with_zero_div no longer wraps count_ / mean_ / var_ / cov_ with Int / numeric: "
                           + " ".join(_ast.unparse(b) for b in body)[:300])
     return ("(* Aggregates.with_zero_div: wraps every number in utils.Int / numeric (checked above on the source text).\n"
